@@ -143,12 +143,12 @@ def spec_walk(n, Ts, Tmax, gs, ths, depth):
 
 def part_walk(ctx):
     m = _live_model(ctx, 2, 2)
-    cases = walk_cases(ctx, ctx.n(2500, 40000))
+    cases = walk_cases(ctx, ctx.n(2500, 20000))
     flat, keys, bad_spec, kept, tolerated = [], [], [], [], 0
     for c in cases:
         n, Ts, Tmax, depth, gs, ths = c
         res = run_walk(m, c)
-        inside = Ts < Tmax < 1000                 # hypotheses of C05_code_walk_refines; outside them the pinned code raises
+        inside = Ts < Tmax                        # for Tsurf >= Tmax the capped depth is <= 0 and the pinned code raises
         if res[0] == 'V' and not inside and abs(res[1][0] - spec_walk(n, Ts, Tmax, gs, ths, depth)) <= TOL * max(1, abs(Tmax)):
             tolerated += 1                         # a value where the model raises, and the value satisfies the property: not a defect
             continue
@@ -212,7 +212,7 @@ def history_cases(ctx, n, count):
 def part_history(ctx):
     import numpy as np
     flat, keys, meta, amb = [], [], [], 0
-    per = ctx.n(60, 1200)
+    per = ctx.n(60, 500)
     for life, tspy in ((1, 1), (7, 1), (3, 4), (10, 4), (30, 1)):
         m = _live_model(ctx, life, tspy)
         m.reserv.Calculate(m)
@@ -332,7 +332,7 @@ QUICK_EXAMPLES = {'example_multiple_gradients.txt', 'example2.txt', 'example3.tx
 def all_inputs(ctx):
     from lib import configs
     rnd, inputs = ctx.rng, corpus_inputs()
-    for k in range(ctx.n(150, 2500)):
+    for k in range(ctx.n(150, 1000)):
         m = (1 + (k // 15) % 2) if k % 15 == 0 else rnd.choice([4, 4, 4, 3, 3])
         inputs.append((f'gen{k}', gen_input(rnd, m, QUICK_STEPS if ctx.quick else DEEP_STEPS)))
     ex = [(n, t) for n, t in configs.example_texts(ctx) if not ctx.quick or n in QUICK_EXAMPLES]
@@ -463,10 +463,15 @@ def part_runs(ctx, inputs):
 
 
 def correspondence(ctx, proofs_ok=True):
+    import time
+    t0 = time.time()
     with contextlib.redirect_stdout(io.StringIO()):      # the wellbore model prints warnings
         part_walk(ctx)
+        t1 = time.time()
         part_history(ctx)
+    t2 = time.time()
     part_runs(ctx, all_inputs(ctx))
+    ctx.distribution.setdefault('wall_s', {}).update({'walk-direct': round(t1 - t0), 'redrill-direct': round(t2 - t1), 'runs': round(time.time() - t2)})
 
 
 # ---------------------------------------------------------------------------------------------------------
